@@ -33,6 +33,10 @@ def enc(x):
         if x in (float("inf"), float("-inf")):
             return {"__f__": "inf" if x > 0 else "-inf"}
         return x
+    if isinstance(x, slice):
+        return {"__slice__": [x.start, x.stop, x.step]}
+    if x is Ellipsis:
+        return {"__ellipsis__": 1}
     if isinstance(x, tuple):
         return {"__t__": [enc(y) for y in x]}
     if isinstance(x, list):
@@ -58,6 +62,10 @@ def dec(x):
             return float(x["__f__"])
         if "__t__" in x:
             return tuple(dec(y) for y in x["__t__"])
+        if "__slice__" in x:
+            return slice(*x["__slice__"])
+        if "__ellipsis__" in x:
+            return Ellipsis
         if "__s__" in x:
             return frozenset(dec(y) for y in x["__s__"])
         if "__d__" in x:
